@@ -15,7 +15,8 @@ ASSUME = [
     "twisted task.Clock driving the timers; TZ=UTC so the local-time and UTC EXPIRES syntaxes denote the same instant",
     "several events may arrive within one reactor turn: zero-delay timers (mappings already expired on arrival) run at the next "
     "Advance, which may be by 0; the lookup clauses are waived for such an entry until the reactor has turned",
-    "each name has its own pool of addresses (address lookups are unambiguous)",
+    "each name has its own pool of addresses plus one address both names may be mapped to (its key belongs to the name mapped to it "
+    "last and goes when that mapping goes)",
     "a third of the executions have a listener that looks the mapping up from inside its 'expired' handler (it must be gone), another "
     "third a second listener whose 'expired' handler raises (the map must be unaffected; a reactor logs the error and goes on)",
     "the model's tick is replayed as 7 s, 5 h and 13 h (offsets then cross 24 h and reach several days)",
@@ -35,7 +36,7 @@ def rand_script(rng, n):
             dt = 0
         elif r < 0.65:
             nm = rng.choice(overdue) if overdue and rng.random() < 0.7 else rng.choice(["n1", "n2"])
-            pool = ["a1", "a2"] if nm == "n1" else ["b1", "b2"]
+            pool = ["a1", "a2", "s"] if nm == "n1" else ["b1", "b2", "s"]       # (s: an address both names may be mapped to)
             addr = rng.choice(pool + pool + ["<error>"])
             k = rng.choice([-2, -1, 0, 1, 1, 2, 3, 5, 8, am.NEVER])
             s.append(dict(a="Event", n=nm, addr=addr, k=k))
@@ -57,6 +58,7 @@ def run(pid, tier, seed):
     rep = common.Report(pid, tier, seed)
     rep.assumptions = list(ASSUME)
     rep.tlc("AddrMapM_MC_" + tier, tlc.run_tlc("AddrMapM_MC", "AddrMapM_MC_%s.cfg" % tier, workers=16, timeout=900))
+    rep.tlc("AddrMapM_MC_shared", tlc.run_tlc("AddrMapM_MC", "AddrMapM_MC_shared.cfg", workers=16, timeout=900))
     rng = random.Random(seed)
     num = 300 if tier == "quick" else 3000
     sims, out, wall = tlc.simulate("AddrMapM_Gen", "AddrMapM_Gen.cfg", num, 14 if tier == "quick" else 25, seed)
